@@ -235,9 +235,9 @@ func (c *collector) Collect(ch chan<- prometheus.Metric) {
 				continue
 			}
 
-			if help != "" {
-				m.Description = help
-			}
+			// Use the description the metric family was first registered
+			// with (it may be empty).
+			m.Description = help
 
 			switch v := m.Data.(type) {
 			case metricdata.Histogram[int64]:
@@ -595,7 +595,7 @@ func (c *collector) validateMetrics(name, description string, metricType *dto.Me
 			Help: proto.String(description),
 			Type: metricType,
 		}
-		return false, ""
+		return false, description
 	}
 
 	if emf.GetType() != *metricType {
@@ -618,7 +618,7 @@ func (c *collector) validateMetrics(name, description string, metricType *dto.Me
 		return false, emf.GetHelp()
 	}
 
-	return false, ""
+	return false, description
 }
 
 func addExemplars[N int64 | float64](m prometheus.Metric, exemplars []metricdata.Exemplar[N]) prometheus.Metric {
